@@ -37,7 +37,7 @@ PROPS = {
  'C06': dict(units=['ev', 'lb', 'hv'], assumptions=[A1, A4, A5, A6],
     level_text="Unbounded proof: exec_binary's SETTER branch, exec_chain, exec_reference against sem (bind after both sides are evaluated, under the target name, result None, failure = no insertion, non-reference target = Err); Context::set_variable/get_variable against the map view; the ten compound handlers have the same spec function as their plain operator.",
     level_note="Context primitives set/get/value trusted over a map view (A5).", not_covered=["the HashMap behind Context (A5)"]),
- 'C07': dict(units=['ev', 'hv'], assumptions=[A1, A4, A5, A6],
+ 'C07': dict(units=['ev', 'hv', 'lb'], assumptions=[A1, A4, A5, A6],
     level_text="Unbounded proof: exec returns sem(ast, ctx).0 and leaves ctx == sem(ast, ctx).1, where sem threads the state left to right through operands, arguments, elements, entries (key then value) and statements, stops at the first Err, applies a function after its arguments and evaluates one branch of a conditional.",
     level_note="Multiplicity of calls to an opaque handler with equal arguments is invisible (A4); order is decided through context effects and data flow.",
     not_covered=["number of invocations of an opaque handler with identical arguments (A4)"]),
